@@ -29,12 +29,15 @@ def _copies(nodes, name, idx):
 def observe(site, entries, reuse, variant=0):
     ann = _ann(entries)
     if site == "graph":
-        text = "{[#A%s]%s[#B]}.{#A=[$]C[$],#B=[$]O}" % (ann, "|%d" % reuse if reuse > 1 else "")
+        mult = "|%d" % reuse if reuse > 1 else ""
+        # the annotated node is multiplied directly, or as the anchor of a multiplied branch
+        base = "{[#A%s]%s[#B]}" % (ann, mult) if variant % 2 == 0 else "{[#A%s]([#B])%s[#B]}" % (ann, mult)
+        text = base + ".{#A=[$]C[$],#B=[$]O}"
         o = project.run_resolve(text)
         if o["outcome"] != "ok":
             return text, {"outcome": o["outcome"], "copies": [], "coarse": []}
         # the base graph as read, and the coarse graph returned by resolve
-        obs, g = project.run_read("{[#A%s]%s[#B]}" % (ann, "|%d" % reuse if reuse > 1 else ""))
+        obs, g = project.run_read(base)
         copies = [[p for p in n["attrs"] if p[0] != "fragname"] for n in obs["nodes"] if n["name"] == "A"]
         coarse = []
         for n in o["steps"][0]["coarse"]["nodes"]:
@@ -50,9 +53,11 @@ def observe(site, entries, reuse, variant=0):
         copies = [n["attrs"] + ([["charge", n["raw_charge"]]] if n["raw_charge"] != "" else [])
                   for n in fine if n["map"] == [["X", 0]]]
         return text, {"outcome": "ok", "copies": copies, "coarse": []}
-    variant = variant % 3
+    variant = variant % 4
     mult = "|%d" % reuse if reuse > 1 else ""
-    if variant == 0:
+    if variant == 3:        # an explicitly written, annotated hydrogen
+        text, idx = "{[#X]%s}.{#X=[$]C([H%s])(O)[$]}" % (mult, ann), 1
+    elif variant == 0:
         text, idx = "{[#X]%s}.{#X=[$]C[C%s](O)[$]}" % (mult, ann), 1
     elif variant == 1:      # a single-atom fragment
         text, idx = "{[#X]%s}.{#X=[$][C%s][$]}" % (mult, ann), 0
@@ -78,7 +83,7 @@ def collect(check, tier):
                           dedupe=lambda p: _ann(p["entries"]))
         for k, it in enumerate(items):
             reuse = 1 + (k % 3)
-            text, obs = observe(site, it["entries"], reuse, k // 3)
+            text, obs = observe(site, it["entries"], reuse, k // 3 + k)
             records.append({"site": site, "entries": it["entries"], "reuse": reuse, "obs": obs, "text": text})
     slim = [{k: r[k] for k in ("site", "entries", "reuse", "obs")} for r in records]
     verdicts, stats = tlc.validate("AnnotTrace", slim)
